@@ -23,7 +23,8 @@ CONSTANTS Families,   \* subset of {"rt", "dec", "iter"}
           RtLen2,     \* ... in the multi-field round-trip types
           VecMax,     \* longest sequence
           DecLen,     \* longest wire string in decode scenarios
-          IterLen     \* longest value in single-pair iterator scenarios
+          IterLen,    \* longest value in single-pair iterator scenarios
+          IterCls     \* classes used in the multi-pair iterator scenarios
 
 TokStr(n) == UNION {[1..k -> Classes] : k \in 0..n}
 One(x) == <<x>>
@@ -135,7 +136,6 @@ MapTexts(ctx) == {<<Pair(k, v)>> : k \in WStr(ctx, 1) \ {<<>>}, v \in WStr(ctx, 
                           k1 \in {t \in WTok(ctx) : t.c \in MapCls /\ t.e # "L"}, k2 \in {t \in WTok(ctx) : t.c \in MapCls /\ t.e # "U"},
                           v1 \in {<<>>, <<[c |-> "pct", e |-> "U", s |-> ""]>>}, v2 \in {<<>>, <<[c |-> "u4", e |-> "L", s |-> ""]>>}}
 \* ------------------------------------------------------------------ query iterator
-IterCls == {"al", "amp", "eq", "pct", "plus", "sp", "u3", "slash"}
 ITok == {t \in WTok("query") : t.c \in IterCls /\ t.e # "L"}
 ITok3 == {t \in ITok : t.c \in {"al", "amp", "eq", "u3"}}
 IterTexts(u_) == {<<Pair(k, v)>> : k \in WStr("query", 1) \ {<<>>}, v \in WStr("query", IterLen)}
